@@ -123,7 +123,13 @@ func (r *Rec) Guard(scenario string, f func()) (panicked bool) {
 				r.Viol(scenario, "step-budget", strings.TrimPrefix(msg, BudgetMsg), "non-termination: %s\n%s", msg, trimStack(stack))
 				return
 			}
-			r.Viol(scenario, "panic", SiteFromStack(stack)+": "+MsgClass(msg), "panic: %s\n%s", msg, trimStack(stack))
+			site := SiteFromStack(stack)
+			if site == "?" && scenario == "unguarded" {
+				// no gophersat frame below the panic: an error of the harness itself, never attributed to the library
+				r.Inconclusive("harness error: %s\n%s", msg, trimStack(stack))
+				return
+			}
+			r.Viol(scenario, "panic", site+": "+MsgClass(msg), "panic: %s\n%s", msg, trimStack(stack))
 		}
 	}()
 	f()
